@@ -110,8 +110,8 @@ func runC11once(c C11Case) (fails []vstat.Failure) {
 		return []vstat.Failure{vstat.Failf("C11:harness", "environment: %v", err)}
 	}
 	key := func(clause string) string { return "C11:" + c.Mode + ":" + clause }
-	probe := startLagProbe()
-	defer probe.stop()
+	lag := startLagProbe()
+	defer lag.stop()
 	id := caseSeq.Add(1)
 	deadline := time.Duration(c.DeadlineMs) * time.Millisecond
 
@@ -502,7 +502,7 @@ func runC11once(c C11Case) (fails []vstat.Failure) {
 	// "its response is delivered in full and the proxy then closes that connection": a connection whose exchange
 	// finished during the drain is closed then, not when the drain ends (other connections may keep it going
 	// until the deadline)
-	if why := probe.starved(); why != "" && len(lateClosed) > 0 {
+	if why := lag.starved(); why != "" && len(lateClosed) > 0 {
 		st.Inconclusive()
 		st.Note("C11: late closing of %d finished connection(s) not judged: %s", len(lateClosed), why)
 		lateClosed = nil
